@@ -176,7 +176,11 @@ def oracle_own_params(rng, n=4):
             getattr(g, nm)(*args)
             base = list(log)
             # slot of call k: replace its matrix by diag(1,2) and see which tensor factor changes
+            kt = 3 if nm == "CNOT_inv" else 1
+            pcr_want = (4 / 3) * (1 - np.sqrt(np.sqrt((1 - 0.75 * 0.03) ** 2 / ((1 - 0.75 * q["c"][0]) ** 2 * (1 - 0.75 * q["t"][0]) ** kt))))
             for k, (name, a) in enumerate(base):
+                if name == "cr_c" and abs(a[3] - pcr_want) > 1e-12:
+                    out.append((nm, k, "cr_c derived two-qubit error", args)); continue
                 if name == "cr_c":
                     ok = (abs(a[4] - q[s0][1]) < 1e-18 and abs(a[5] - q[s0][2]) < 1e-18 and abs(a[6] - q[s1][1]) < 1e-18 and abs(a[7] - q[s1][2]) < 1e-18)
                     if not ok: out.append((nm, k, name, args));
